@@ -268,6 +268,25 @@ Proof.
   - eapply Forall_upd; eauto. cbn. intro. apply ok_left; auto.
 Qed.
 
+Lemma pres_send s (HI : Inv s) t i s' : exec t (Send i) s = Continue s' \/ exec t (Send i) s = Halt s' -> Inv s'.
+Proof.
+  intro H. cbn in H. destruct (nth_error (s_conns s) i) as [c0|] eqn:Hn; [|destruct H; discriminate].
+  destruct (phase_eqb (c_phase c0) PNone || phase_eqb (c_phase c0) PRefused || c_sent c0 || c_left c0);
+    [destruct H; discriminate|].
+  destruct HI as [Hwg Hwait Hpassed Hret Hlc Hpend Hcur Hpend2 Hnd Hcur2 Hconns].
+  inv_res H. constructor; simp_pu; auto.
+  - rewrite (cnt_upd _ _ _ _ Hn). unfold counted. cbn. lia.
+  - eapply pending_upd; eauto.
+  - eapply cur_upd; eauto.
+  - intros j Hj. destruct (Hpend2 _ Hj) as (c & Hc & Hcp). destruct (Nat.eq_dec i j) as [<-|Hne].
+    + exists (set_sent c0). rewrite nth_upd_eq, Hn. cbn. split; auto. congruence.
+    + exists c. rewrite nth_upd_neq by auto. auto.
+  - intros j Hj. destruct (Hcur2 _ Hj) as (c & Hc & Hcp). destruct (Nat.eq_dec i j) as [<-|Hne].
+    + exists (set_sent c0). rewrite nth_upd_eq, Hn. cbn. split; auto. congruence.
+    + exists c. rewrite nth_upd_neq by auto. auto.
+  - eapply Forall_upd; eauto.
+Qed.
+
 Lemma pres_achk s (HI : Inv s) t s' : exec t AChk s = Continue s' \/ exec t AChk s = Halt s' -> Inv s'.
 Proof.
   intro H. cbn in H. destruct (s_a s) eqn:A; try (destruct H; discriminate).
@@ -405,7 +424,28 @@ Proof.
   - eapply cur_upd; eauto. cbn. discriminate.
   - intros j Hj. eapply at_phase_upd; eauto.
   - intros j Hj. eapply at_phase_upd; eauto.
-  - eapply Forall_upd; eauto. cbn. intro. apply ok_added; auto.
+  - eapply Forall_upd; eauto. cbn. intro. apply ok_wait; auto.
+Qed.
+
+Lemma pres_hread s (HI : Inv s) t i s' :
+  exec t (HRead i) s = Continue s' \/ exec t (HRead i) s = Halt s' -> Inv s'.
+Proof.
+  intro H. cbn in H. apply guard_inv2 in H. destruct H as (c0 & Hn & Hp & H).
+  destruct (c_sent c0) eqn:Se.
+  - destruct HI as [Hwg Hwait Hpassed Hret Hlc Hpend Hcur Hpend2 Hnd Hcur2 Hconns].
+    assert (Hnp : c_phase c0 <> PPending) by congruence. assert (Hnc : c_phase c0 <> PCur) by congruence.
+    inv_res H; constructor; simp_pu; auto.
+    + rewrite (cnt_upd _ _ _ _ Hn). unfold counted. cbn. rewrite Hp. cbn. lia.
+    + eapply pending_upd; eauto. cbn. discriminate.
+    + eapply cur_upd; eauto. cbn. discriminate.
+    + intros j Hj. eapply at_phase_upd; eauto.
+    + intros j Hj. eapply at_phase_upd; eauto.
+    + eapply Forall_upd; eauto. cbn. intro. apply ok_added; auto.
+  - destruct (c_closed c0 || c_left c0) eqn:B; [|destruct H; discriminate].
+    inv_res H. apply (pres_handler_done s HI i c0); auto.
+    + unfold counted. rewrite Hp. reflexivity.
+    + pose proof (i_conns s HI) as HF. rewrite Forall_forall in HF. specialize (HF c0 (nth_error_In _ _ Hn)).
+      eapply ok_read_failed; eauto.
 Qed.
 
 Lemma pres_hclientsadd s (HI : Inv s) t i s' :
@@ -556,11 +596,13 @@ Lemma exec_inv t ins s s' : Inv s -> exec t ins s = Continue s' \/ exec t ins s 
 Proof.
   intros HI H. destruct ins.
   - eapply pres_dial; eauto.
+  - eapply pres_send; eauto.
   - eapply pres_leave; eauto.
   - eapply pres_achk; eauto.
   - eapply pres_aaccept; eauto.
   - eapply pres_aspawn; eauto.
   - eapply pres_hstart; eauto.
+  - eapply pres_hread; eauto.
   - eapply pres_hclientsadd; eauto.
   - eapply pres_hconnack; eauto.
   - eapply pres_hteardown; eauto.
@@ -598,12 +640,15 @@ Qed.
 
 (* when nothing in the broker can move any more and Close was called: Close has returned, the
    listener is closed, every connection is closed (MQTT 5 clients that were connected got 0x8B),
-   no handler is alive.  Holds at full strength: no known finding is excluded. *)
+   no handler is alive — unless a handler still waits for the CONNECT of a silent client (known
+   finding C36-3). *)
 Lemma shutdown_all_closed vers sched :
+  KF_C36_silent_connection vers sched = false ->
   close_called (final vers sched) = true -> quiescent (final vers sched) = true ->
   shutdown_complete (final vers sched) = true.
 Proof.
-  intros Hcc Hq. pose proof (final_inv vers sched) as HI.
+  unfold KF_C36_silent_connection. intros Hsil Hcc Hq.
+  pose proof (existsb_false_forall _ _ Hsil) as Hns. rewrite Forall_forall in Hns. clear Hsil. pose proof (final_inv vers sched) as HI.
   remember (final vers sched) as s eqn:Hs. clear Hs.
   unfold quiescent in Hq. apply andb_prop in Hq. destruct Hq as [Hq Hh]. apply andb_prop in Hq. destruct Hq as [Ha Hk].
   rewrite forallb_forall in Hh.
